@@ -15,7 +15,7 @@ def run(ctx):
             'SumBuffers 2 outputs, Delay 2 calls x 2 channels, signal node 2 calls (each may be reported NOT COVERED)')
     ctx.bounded.append(note)
     ctx.add_assumption('NOT covered: GraphNode (nested graph => petgraph, infeasible for CBMC), unbounded input counts, larger shapes')
-    quick = ['c16_pass', 'c16_sum_1in', 'c16_sum_buffers_1in_2buf_1out', 'c16_delay_1call', 'c16_signal_node', 'c16_wrappers']
+    quick = ['c16_pass', 'c16_sum_1in', 'c16_sum_buffers_1in_2buf_1out', 'c16_delay_1call', 'c16_signal_node', 'c16_wrappers']   # c16_wrappers also matches c16_wrappers_forward_every_call
     run_kani(ctx, 'graph_nodes', harness=quick, rustflags='--cfg rustaudio_dasp_verif', harness_timeout='10m', bounded_note=note)
     if ctx.tier == 'thorough':
         run_kani(ctx, 'graph_nodes', harness=['c16_t_'], rustflags='--cfg rustaudio_dasp_verif', harness_timeout='30m',
